@@ -423,7 +423,9 @@ func (w *MarkdownWriter) formatRunText(run, prev, next *document.Run) string {
 		return ""
 	}
 
-	text := run.Text.Content
+	// 文本中的换行符在Word里显示为空白；原样写入Markdown会截断ATX标题、把段落拆成两段，
+	// 重新导入后软换行又变成空格（二次导出不再一致），因此统一换成空格
+	text := lineEndReplacer.Replace(run.Text.Content)
 	if text == "" {
 		return ""
 	}
@@ -482,6 +484,9 @@ func (w *MarkdownWriter) formatRunText(run, prev, next *document.Run) string {
 
 	return lead + text + trail
 }
+
+// lineEndReplacer 把行内文本中的换行符换成空格
+var lineEndReplacer = strings.NewReplacer("\r\n", " ", "\n", " ", "\r", " ")
 
 // escapeMarkdown 在会被解析为Markdown标记的字符前加反斜杠，使文本按字面显示。
 // 行内标记字符总是转义；只在行首起作用的标记（# - + = > 以及 1. 这样的编号）按单词判断，
